@@ -790,7 +790,9 @@ def rule_serde_shape(fx, col):
         src = s.origins(t['args'][0], through_calls=_deref_through)
         col.add('SERDE-SHAPE', 'serialize|T::serialize(&*guard, serializer)', is_t and src == {('call', loads[0][0])},
                 'the pointee of the current value is serialized directly with the caller\'s serializer (callee %s)' % c.get('pretty'))
-        col.add('SERDE-SHAPE', 'serialize|result returned unchanged', t['dest']['local'] == 0, 'no wrapping (serialize_newtype_struct / serialize_some / map) around it')
+        # straight into the return place, or through a named local (`let result = ..; drop(guard); result`): nothing but that call feeds _0
+        unchanged = t['dest']['local'] == 0 or s.origins(0) == {('call', bb)}
+        col.add('SERDE-SHAPE', 'serialize|result returned unchanged', unchanged, 'no wrapping (serialize_newtype_struct / serialize_some / map) around it')
     others = [U.callee_name(t) for bb, t in calls if t['callee'].get('krate') == 'serde' and (bb, t) not in ser]
     col.add('SERDE-SHAPE', 'serialize|no other serde call', not others, 'other serde calls: %s' % others)
     # deserialize
